@@ -84,7 +84,7 @@ def record_leaves(record):
     return out
 
 
-HUMAN = re.compile(r"^\[L:\s*\d+, P:\s*\d+\]\s*\|(\s*)([\w\[\]]+):\s*(.*)$")
+HUMAN = re.compile(r"^\[L:\s*\d+, P:\s*\d+\]\s*\|(\s*)([^\s:]+):\s*(.*)$")
 
 
 def human_leaves(text):
@@ -143,7 +143,9 @@ def run_case(case):
             rec = tree.as_record(**kw)
             counters["records_compared"] += 2
             cmp(w, record_leaves(json.loads(json.dumps(rec))), "json_record" + ("_meta" if kw.get("include_meta") else "") + ("_pos" if kw.get("include_position") else ""), fails, rendered)
-            cmp(w, record_leaves(yaml.safe_load(yaml.dump(rec, sort_keys=False, allow_unicode=True))), "yaml_record" + ("_meta" if kw.get("include_meta") else ""), fails, rendered)
+            if len(w) <= 250 and not kw.get("include_position"):  # PyYAML is slow; round-trip the smaller trees
+                counters["yaml_roundtrips"] = counters.get("yaml_roundtrips", 0) + 1
+                cmp(w, record_leaves(yaml.safe_load(yaml.dump(rec, sort_keys=False, allow_unicode=True))), "yaml_record" + ("_meta" if kw.get("include_meta") else ""), fails, rendered)
         except Exception as e:
             fails.append({"sig": f"as_record_raised:{type(e).__name__}", "detail": {"kw": kw, "err": repr(e)[:200]}})
     if not parsed.violations:
